@@ -271,6 +271,7 @@ def dispatch_case(ctx, case):
                 if idx in l['ignore']:
                     raise IgnorePacket
             return fn
+        shared_deco = {}
         for l in allL:
             types = [F[t] for t in l['types']]
             kw = {}
@@ -278,7 +279,15 @@ def dispatch_case(ctx, case):
                 kw['early'] = True
             if l['cls'][0] == 'o':
                 kw['outgoing'] = True
-            if case.get('decorator') and l['id'] % 2:
+            if case.get('decorator') == 'shared' and l['id'] >= 2:
+                # one decorator object applied to several handlers
+                key = (tuple(l['types']), tuple(sorted(kw)))
+                if key not in shared_deco:
+                    shared_deco[key] = conn.listener(*types, **kw)
+                else:
+                    ctx.label('decorator_object_reused')
+                shared_deco[key](make(l))
+            elif case.get('decorator') and l['id'] % 2:
                 conn.listener(*types, **kw)(make(l))
             else:
                 conn.register_packet_listener(make(l), *types, **kw)
@@ -689,6 +698,12 @@ def sanitize(case):
     history = case['history']
     si = next(i for i, h in enumerate(history) if h[0] == 'success')
     last = len(history)
+    if case.get('decorator') == 'shared':
+        # same filter for all listeners of a class, so that the decorator
+        # object really is shared
+        first = {}
+        for l in case['listeners']:
+            l['types'] = first.setdefault(l['cls'], l['types'])
     for l in case['listeners']:
         if l['cls'] == 'ie':
             l['ignore'] = [i for i in l['ignore'] if i not in (si, last)]
@@ -703,7 +718,7 @@ def case_strategy():
         return history_strategy(v).flatmap(lambda h: st.fixed_dictionaries({
             'version': st.just(v), 'history': st.just(h),
             'listeners': listeners_strategy(len(h)),
-            'decorator': st.booleans()}))
+            'decorator': st.sampled_from([False, True, 'shared'])}))
     return st.sampled_from([757, 757, 340, 47]).flatmap(fv).map(sanitize)
 
 
@@ -740,6 +755,9 @@ def t_fixed(ctx):
         ]
         dispatch_case(ctx, {'version': v, 'history': hist,
                             'listeners': base, 'decorator': False})
+        dispatch_case(ctx, sanitize({
+            'version': v, 'history': hist, 'decorator': 'shared',
+            'listeners': [dict(l) for l in base + base]}))
         # every single (listener, packet index) ignore
         for li in range(len(base)):
             top = n + 1 if base[li]['cls'][0] == 'i' else n + 6
